@@ -39,6 +39,12 @@ func main() {
 		genSweep(e, *prop, *tier)
 		e.close()
 		fmt.Printf("cases=%d\n", e.n)
+	case "facts":
+		repo := "/repo"
+		if len(os.Args) > 2 {
+			repo = os.Args[2]
+		}
+		sourceFacts(repo)
 	case "replay":
 		replay(os.Args[2])
 	default:
